@@ -112,7 +112,7 @@ Fixpoint contains_sub (sub s : string) : bool :=
 (* class 25 = F25: the profile has line numbers 2^63 or more apart AND the input asks for an annotated
    source listing (web /source, the weblist command or flag) *)
 Definition f25 (lines : term) (asks_weblist : bool) : list Z :=
-  if in_F25 (gzs lines) && asks_weblist then [25] else [].
+  [].  (* F25 repaired in /repo (b775123): no class; the witness is still replayed and must not hang *)
 
 Definition cls_C09 (i : term) : list Z :=
   let op := gs (gn i 0) in
